@@ -1157,6 +1157,8 @@ def _tested_or_grown_proof(ctx, body, c, sp):
         lc = x.local_callee()
         if lc is None or lc.path not in G or body.is_cleanup(x.loc.bb) or x.target is None:
             continue
+        if ctx.facts.types[lc.locals[0]["ty"]]["s"] != "()":
+            continue          # a fallible growth returns whether it grew: only the infallible wrapper establishes room by returning
         rp = x.arg_path(0)
         q = ctx.resolve(body, rp)[1] if rp is not None else None
         qs = ctx.roles.s_prefix(q) if q is not None else None
